@@ -20,6 +20,15 @@ NONE = -99
 CLS = {"grid": "QGridLayout", "form": "QFormLayout", "vbox": "QVBoxLayout", "hbox": "QHBoxLayout"}
 
 
+def spans_of(l, i):
+    """span / alignment attachments of child i: copied to its <item>, no part in the flow (Layout.tla has no variable for them) -- chosen by a hash of the layout"""
+    if l["kind"] not in ("grid", "form") or l.get("_nospans"):
+        return {}
+    import hashlib
+    h = int(hashlib.sha1(json.dumps([l["kind"], l["flow"], str(l["count"]), l["kids"], i], sort_keys=True).encode()).hexdigest(), 16)
+    return [{}, {}, {"columnSpan": 2}, {"rowSpan": 2}, {"columnSpan": 3, "rowSpan": 2}, {"columnSpan": 2, "alignment": "Qt.AlignRight"}, {"rowSpan": 3}, {"columnSpan": 1}][h % 8]
+
+
 def render(l):
     q = "import qmluic.QtWidgets\nQWidget {\n  %s {\n" % CLS[l["kind"]]
     if l["kind"] == "grid":
@@ -34,6 +43,8 @@ def render(l):
         for key, name in (("row", "row"), ("col", "column"), ("rs", "rowStretch"), ("cs", "columnStretch"), ("rmh", "rowMinimumHeight"), ("cmw", "columnMinimumWidth")):
             if k[key] != NONE:
                 q += "; QLayout.%s: %d" % (name, k[key])
+        for name, v in spans_of(l, i).items():
+            q += "; QLayout.%s: %s" % (name, v)
         q += " }\n"
     return q + "  }\n}\n"
 
@@ -96,6 +107,11 @@ def run(chk):
         obs = observe(T.parse_ui(run_["ui"]))
         grid_like = l["kind"] in ("grid", "form")
         d = differences(exp, obs, grid_like)
+        for j, kid in enumerate(T.parse_ui(run_["ui"])["root"]["kids"][0]["kids"]):
+            sp = spans_of(l, j)
+            for name, attr in (("columnSpan", "colspan"), ("rowSpan", "rowspan")):
+                if str(sp.get(name, "")) != (kid["item"] or {}).get(attr, ""):
+                    d.append("item %d carries %s=%r, bound %s" % (j, attr, (kid["item"] or {}).get(attr), sp.get(name)))
         if d:
             dp = differences(pin, obs, grid_like)
             if not dp and chk.is_known("F2"):
